@@ -18,7 +18,7 @@ ASSUMPTIONS = ["tolerance 1e-9 * (1 + |point| + |pivot|)", "rotation sense about
 
 @st.composite
 def _op(draw, dim):
-    op = draw(st.sampled_from(["translate", "rotate", "rotate", "scale", "read", "scale_roundtrip"]))
+    op = draw(st.sampled_from(["translate", "rotate", "rotate", "scale", "read", "scale_roundtrip", "rejected"]))
     c = {"op": op, "inplace": draw(st.booleans()), "target": draw(st.integers(0, 7))}
     if op == "translate":
         c["vec"] = [draw(st.integers(-64, 64)) / 8.0 for _ in range(dim)]
@@ -127,6 +127,14 @@ def check_transform(case, ctx):
                 _ = tgt.evalpts
             did.append("read")
             continue
+        if st_["op"] == "rejected":
+            # a call the library refuses (a translation vector with a missing component): nothing moves, and the calls after it work
+            try:
+                operations.translate(tgt, [1.0, None, 2.0][:case["dim"]], inplace=st_["inplace"])
+                did.append("accepted-None-vector")
+            except Exception:
+                did.append("rejected")
+            st_ = dict(st_, op="noop")
         if st_["op"] == "scale_roundtrip":
             # scaling by 2^-43 and back by 2^43 is exact in binary floating point: the shape must return where it was
             # (coordinates of size 1e-13 are still ordinary floats)
